@@ -741,11 +741,45 @@ def rhigh(nb):
     return VOpaque("recompose_bits", [nb, 256])
 
 
+R_MINUS_1 = 0x73eda753299d7d483339d80809a1d80553bda402fffe5bfeffffffff00000000
+
+
+def _const_bits(v):
+    """to_bits() of a CONSTANT field element: its 256 little-endian bits, concretely (BlsScalar::to_bits, ASSUMED: bit i of the canonical value)"""
+    from vlib.ring import _deref
+    from vlib.poly import R_BLS
+    v = _deref(v)
+    if isinstance(v, (Poly, int)) and not P(v).vars():
+        c = P(v).norm().get((), 0) % R_BLS
+        return VArr([(c >> i) & 1 for i in range(256)], "array")
+    return None
+
+
+def _recompose_const(a):
+    """recompose_bits(bits, lo, hi) on CONCRETE bits and bounds: the integer sum bits[i] * 2^(i - lo), lo <= i < hi (its loop: unit
+    truncate_specs / Verus recompose_bits contract)"""
+    b, lo, hi = a
+    if isinstance(b, VArr) and isinstance(lo, int) and isinstance(hi, int) and all(isinstance(x, int) for x in b.items):
+        return C(sum(int(b.items[i]) << (i - lo) for i in range(lo, hi)))
+    return None
+
+
+def _from_raw_const(a):
+    """BlsScalar::from_raw(limbs) on concrete limbs: the value mod r (dusk-bls12_381 from_raw reduces; listed dependency fact)"""
+    from vlib.poly import R_BLS
+    l = a[0]
+    if isinstance(l, VArr) and len(l.items) == 4 and all(isinstance(x, int) for x in l.items):
+        return C(sum(int(x) << (64 * i) for i, x in enumerate(l.items)) % R_BLS)
+    raise OutsideFragment("BlsScalar::from_raw on symbolic limbs")
+
+
 TRUNC_CON = dict(RANGE_CON)
 TRUNC_CON.update({
     "self.bind_truncation_split": c_op("bind_truncation_split"),
     "self.assert_canonical_truncation": c_op("assert_canonical_truncation"),
-    ".to_bits": lambda it, recv, a: VOpaque("to_bits", [recv]),
+    ".to_bits": lambda it, recv, a: _const_bits(recv) or VOpaque("to_bits", [recv]),
+    "recompose_bits": lambda it, recv, a: _recompose_const(a) or VOpaque("recompose_bits", [a[1], a[2]]),
+    "BlsScalar::from_raw": lambda it, recv, a: _from_raw_const(a),
     ".invert": lambda it, recv, a: VOpaque("invert", [recv]),
     ".unwrap_or": lambda it, recv, a: VOpaque("havoc:diff_inverse") if isinstance(recv, VOpaque) and recv.name == "invert" else NotImplemented,
 })
@@ -782,7 +816,8 @@ def c_assert_canonical_truncation(nb):
         """with r - 1 = r_high * 2^nb + r_low:  diff = r_high - high in [0, 2^(255-nb));  is_top = [diff == 0] by the is-zero gadget
         (inverse witness, product, is_top = 1 - product, diff * is_top = 0);  guard = is_top * (r_low - low) in [0, 2^nb)"""
         high, low, _ = a
-        r_lo, r_hi = VOpaque("recompose_bits", [0, nb]), VOpaque("recompose_bits", [nb, 256])
+        # r - 1 = r_hi * 2^nb + r_lo as CONSTANTS (the code must arrive at these two field elements, however it computes them)
+        r_lo, r_hi = C(R_MINUS_1 & ((1 << nb) - 1)), C(R_MINUS_1 >> nb)
         ev(it, "gate_add", cons({"q_l": NEG1, "a": high, "q_c": r_hi}))
         diff = fresh_w(it)
         c_range_check_call(it, None, [diff, 255 - nb])
